@@ -519,14 +519,14 @@ def rU : P Nat := fun bs =>
   match unsignedDecode bs with
   | .error _ => .error .EOFError
   | .ok (n, rest) =>
-    if strict && !(bs.take (bs.length - rest.length) == uencLoop n) then .error .NonCanonical else .ok (n, rest)
+    if strict && !((uencLoop n).isPrefixOf bs) then .error .NonCanonical else .ok (n, rest)
 
 /-- `read_int` -/
 def rS : P Int := fun bs =>
   match signedDecode bs with
   | .error _ => .error .EOFError
   | .ok (z, rest) =>
-    if strict && !(bs.take (bs.length - rest.length) == sencLoop z) then .error .NonCanonical else .ok (z, rest)
+    if strict && !((sencLoop z).isPrefixOf bs) then .error .NonCanonical else .ok (z, rest)
 
 /-- `read_length_prefixed_bytes` -/
 def rSizedBytes : P Bytes := do
@@ -787,16 +787,24 @@ def rSectionBody (st0 : RState) (id : Nat) : P RState := do
   | 12 => do let x ← rU strict; pure { st with defs := st.defs ++ [.datacount x] }
   | _ => fail .KeyError
 
-/-- the section loop of `read_module` -/
+/-- one section frame: id byte, size, payload (`read_byte`, `read_length_prefixed_bytes`) -/
+def rFrame : P (Nat × Bytes) := do
+  let id ← rByte
+  let payload ← rSizedBytes strict
+  pure (id, payload)
+
+/-- the section loop of `read_module`: the payload of each frame is parsed on its own
+    (`push_data`) and must be consumed completely -/
 def rSections : Nat → RState → P RState
   | 0, _ => fail .Fuel
   | fuel + 1, st => fun bs =>
-    match bs with
-    | [] => .ok (st, [])
-    | id :: rest =>
-      match (do let n ← rU strict; rSub (rSectionBody T strict st id) n) rest with
+    if bs.isEmpty then .ok (st, []) else
+    match rFrame strict bs with
+    | .error e => .error e
+    | .ok ((id, payload), rest) =>
+      match rSectionBody T strict st id payload with
       | .error e => .error e
-      | .ok (st', rest') => rSections fuel st' rest'
+      | .ok (st', rem) => if rem.isEmpty then rSections fuel st' rest else .error .AssertionError
 
 def rHeader : P Unit := do
   let magic ← rExact 4
@@ -878,6 +886,12 @@ def importOk (i : Import) : Bool :=
    | .memory _ => true
    | .global t _ => typeOk T t)
 
+def elemOk (e : Elem) : Bool :=
+  match e.mode with | some (tbl, off) => tbl == 0 && exprOk T off | none => false
+
+def dataOk (d : Data) : Bool :=
+  match d.mode with | some (_, off) => exprOk T off | none => true
+
 def defOk : Def → Bool
   | .type t => t.params.all (typeOk T) && t.results.all (typeOk T)
   | .imp i => importOk T i
@@ -887,8 +901,8 @@ def defOk : Def → Bool
   | .global g => typeOk T g.ty && exprOk T g.init
   | .export e => utf8Valid e.name && e.kind < 4
   | .start _ => true
-  | .elem e => (match e.mode with | some (tbl, off) => tbl == 0 && exprOk T off | none => false)
-  | .data d => (match d.mode with | some (_, off) => exprOk T off | none => true)
+  | .elem e => elemOk T e
+  | .data d => dataOk T d
   | .datacount _ => true
   | .custom c => utf8Valid c.name
 
@@ -903,16 +917,16 @@ def instrRowOk (id : Nat) : Bool :=
     b < 256 && b != 0xFC && b != 0xFD &&
     (match T.reverz1 b with | some id' => id' == id | none => false) &&
     (!(b == 0x1C) || (match T.reverz1 0x1B with | some id' => id' == id | none => false)) &&
-    (!(kinds.contains .resultTypes) || b == 0x1C)
+    (!(kinds.contains .resultTypes) || (b == 0x1C && kinds == [.resultTypes]))
   | some (p, some s), some kinds =>
-    (p == 0xFC || p == 0xFD) &&
+    (p == 0xFC || p == 0xFD) && s < T.maxSub &&
     (match T.reverz2 p s with | some id' => id' == id | none => false) &&
     !(kinds.contains .resultTypes)
   | _, _ => false
 
 def typeRowOk (t : Nat) : Bool :=
   match T.typeBytes t with
-  | some [b] => (match T.typeOfByte b with | some t' => t' == t | none => false)
+  | some [b] => b < 256 && (match T.typeOfByte b with | some t' => t' == t | none => false)
   | _ => false
 
 /-- reverse direction: what `REVERZ` returns is an instruction whose `OPCODES` entry is the key
